@@ -458,8 +458,60 @@ def import_scores(ctx):
         ctx.functions |= tmp.functions
 
 
+def check_key_stores(ctx):
+    """The statistic a recommendation is computed from is only ever stored as the statistic of the recorded history: every store to
+    mean_reward in the cell classes of StoSOO and StroquOOL - wherever it happens (update_reward, compute_b_value,
+    compute_mean_reward) - is the arithmetic mean of the cell's reward list (with or without the reward being recorded)."""
+    model = ctx.model
+    for ncls in ("StoSOO_node", "StroquOOL_node"):
+        if ncls not in model.classes:
+            continue
+        c = model.cls(ncls)
+        for name, fn in sorted(c.methods.items()):
+            if name == "__init__" or not any(is_self_attr(x, "mean_reward") and isinstance(x.ctx, ast.Store) for x in ast.walk(fn)):
+                continue
+            qual = "%s.%s" % (ncls, name)
+            ctx.fn(qual)
+            S = SM.Summarizer(model, ncls)
+            T = S.T
+            try:
+                ps = S.run(fn, params={"reward": T.sym("reward")} if any(a.arg == "reward" for a in fn.args.args) else None)
+            except (SM.HasLoop, SX.Untranslatable) as ex:
+                ctx.violation("R07-EVAL", c.file, qual, "self.mean_reward", "cannot read how the mean is computed: %s" % ex, fn.lineno)
+                continue
+            R, N, r = T.sym("rewards"), T.sym("visited_times"), T.sym("reward")
+            refs = [SX.SUM(R) / N, SX.SUM(R) / SX.LEN(R)] if hasattr(SX, "LEN") else [SX.SUM(R) / N]
+            for p in ps:
+                if p.raises or "mean_reward" not in p.stores:
+                    continue
+                got = p.stores["mean_reward"]
+                ok = False
+                gs = str(got)
+                # accepted: SUM(L)/n with L the reward list (possibly with the new reward appended) and n its length / the pull count
+                for L, ns in (("rewards", ("visited_times", "LEN(rewards)")),
+                              ("APPEND(rewards, reward)", ("visited_times + 1", "LEN(APPEND(rewards, reward))", "LEN(rewards) + 1"))):
+                    for n_ in ns:
+                        if gs.replace(" ", "") in (("SUM(%s)/(%s)" % (L, n_)).replace(" ", ""), ("SUM(%s)/%s" % (L, n_)).replace(" ", "")):
+                            ok = True
+                if not ok and gs.replace(" ", "") in ("MEAN(rewards)", "MEAN(APPEND(rewards,reward))"):
+                    ok = True
+                if not ok:
+                    # any other spelling: compared symbolically with the reference forms, read by the same translator
+                    try:
+                        base = [S.T.tr(ast.parse(e, mode="eval").body) for e in
+                                ("sum(self.rewards) / self.visited_times", "sum(self.rewards) / len(self.rewards)", "np.mean(self.rewards)")]
+                        app = sp.Function("APPEND")(R, r)
+                        cands = list(base) + [b.subs(N, N + 1).subs(R, app) for b in base]
+                        ok = any(SX.equivalent(got, cnd)[0] is True for cnd in cands)
+                    except SX.Untranslatable:
+                        pass
+                ctx.ob("R07-EVAL", ok, c.file, qual, "self.mean_reward = mean of the recorded rewards",
+                       "stored as %s on the path %s" % (got, p.conds or "(always)"), fn.lineno)
+
+
 def run(ctx):
     model = ctx.model
+    ctx.attempt("R07-EVAL", "PyXAB/algos", "StoSOO_node/StroquOOL_node", "recorded means", check_key_stores, ctx)
     for name, spec in SPEC.items():
         cls = model.cls(name)
         fn = model.own_method(name, "get_last_point")
